@@ -193,9 +193,19 @@ func cmdCheck(id, tier string) int {
 	// Obligations that ran out of time are retried once with a longer limit and
 	// fewer competitors, so that machine load does not turn into an alarm.
 	var retry []*Obligation
+	knownEarly := loadKnownFindings(filepath.Join(*flagVerif, "known-findings.txt"))
 	for _, o := range all {
 		if !o.ok() && !o.Cover && (o.Result == "timeout" || o.Result == "unknown" || o.Result == "error") {
-			retry = append(retry, o)
+			// an obligation recorded as a (not repaired) finding is expected to fail: no second, longer attempt
+			skip := false
+			for _, k := range knownEarly {
+				if k.Oblig == partSuffixRe.ReplaceAllString(o.Name, "") {
+					skip = true
+				}
+			}
+			if !skip {
+				retry = append(retry, o)
+			}
 		}
 	}
 	nRetried := len(retry)
